@@ -71,6 +71,80 @@ pub fn check_text(ctx: &mut Ctx, src: &str, holes: bool, tag: &str) -> Obs {
     obs
 }
 
+
+// ---- polymorphic instantiation matrix ----
+// `h ti tj LAM` under k type binders, where h : (a : type) -> (c : type) -> F a c -> int, for
+// every shape F, every lambda LAM of matching arity that returns one of its parameters (binder
+// annotations written or omitted), and every pair of type arguments among the binders and `int`.
+// Most cells are ill-typed; the elaborated term of whatever gram accepts is judged by R-core.
+const SHAPES: [(&str, usize); 5] = [("a -> int -> c", 2), ("a -> c", 1), ("(a -> c) -> a -> c", 2), ("int -> a -> c", 2), ("a -> a -> c", 2)];
+
+fn matrix_total() -> u64 {
+    // k in 1..=4, spacer 0..2, shape 0..5, lambda variant 0..12, (i, j) in (k+1)^2
+    (1..=4u64).map(|k| 2 * 5 * 12 * (k + 1) * (k + 1)).sum()
+}
+
+fn matrix_program(mut i: u64) -> String {
+    let mut k = 1u64;
+    loop {
+        let block = 2 * 5 * 12 * (k + 1) * (k + 1);
+        if i < block {
+            break;
+        }
+        i -= block;
+        k += 1;
+    }
+    let spacer = i % 2;
+    i /= 2;
+    let (shape, arity) = SHAPES[(i % 5) as usize];
+    i /= 5;
+    let variant = i % 12;
+    i /= 12;
+    let (ti, tj) = (i / (k + 1), i % (k + 1));
+    let tname = |x: u64| if x == k { "int".to_owned() } else { format!("t{x}") };
+    let mut binders = String::new();
+    for b in 0..k {
+        binders.push_str(&format!("(t{b} : type) => "));
+        if spacer == 1 {
+            binders.push_str(&format!("(n{b} : int) => "));
+        }
+    }
+    // lambda: which parameter is returned, and which binders carry their annotation
+    let ret = variant % 3; // 0: first parameter, 1: last parameter, 2: first applied/unused mix
+    let ann = variant / 3; // 0: none, 1: first only, 2: last only, 3: all
+    let dom = |pos: usize| -> String {
+        // the domain the shape prescribes at that position, instantiated
+        let d = match (shape, pos) {
+            ("a -> int -> c", 0) | ("a -> c", 0) | ("a -> a -> c", 0) | ("a -> a -> c", 1) | ("(a -> c) -> a -> c", 1) | ("int -> a -> c", 1) => tname(ti),
+            ("(a -> c) -> a -> c", 0) => format!("{} -> {}", tname(ti), tname(tj)),
+            _ => "int".to_owned(),
+        };
+        d
+    };
+    let p = |pos: usize| format!("p{pos}");
+    let binder = |pos: usize| -> String {
+        let annotated = match ann {
+            0 => false,
+            1 => pos == 0,
+            2 => pos + 1 == arity,
+            _ => true,
+        };
+        if annotated { format!("({} : {}) => ", p(pos), dom(pos)) } else { format!("{} => ", p(pos)) }
+    };
+    let mut lam = String::new();
+    for pos in 0..arity {
+        lam.push_str(&binder(pos));
+    }
+    let body = match (ret, shape) {
+        (2, "(a -> c) -> a -> c") => "p0 p1".to_owned(),
+        (0, _) => p(0),
+        (1, _) => p(arity - 1),
+        _ => p(0),
+    };
+    lam.push_str(&body);
+    format!("(h : (a : type) -> (c : type) -> ({shape}) -> int) => {binders}h {} {} ({lam})", tname(ti), tname(tj))
+}
+
 impl Prop for C03P {
     fn id(&self) -> &'static str {
         "C03"
@@ -82,9 +156,11 @@ impl Prop for C03P {
                 sec("explicit-programs", tier.pick(10_000, 200_000)),
                 sec("inferred-programs", tier.pick(10_000, 200_000)),
                 sec("perturbed-explicit-programs", tier.pick(25_000, 500_000)),
+                sec("perturbed-inferred-programs", tier.pick(25_000, 500_000)),
+                crate::fw::sec_ex("polymorphic-instantiation-matrix", matrix_total().div_ceil(64)),
                 crate::fw::sec_ex("small-programs-exhaustive", crate::gen_small::total_upto(tier.pick(5, 6)).div_ceil(SMALL_BLOCK)),
             ],
-            "every (elaborated term, reported type) pair returned by type_check on generated explicit and inferred programs, on the corpus and on single-point perturbations of explicit programs (17 perturbation kinds aimed at the side conditions of each typing rule and at the definition-order check) and on every source program of at most 5 (quick) / 6 (thorough) nodes over the full syntax is judged by an independent NbE checker; every perturbed explicit program the reference judges ill-typed as source must be rejected with at least one diagnostic; non-trivial = distinct accepted program judged, or distinct ill-typed program rejected",
+            "every (elaborated term, reported type) pair returned by type_check on generated explicit and inferred programs, on the corpus, on single-point perturbations of explicit and of inferred programs (18 perturbation kinds aimed at the side conditions of each typing rule and at the definition-order check) and on every source program of at most 5 (quick) / 6 (thorough) nodes over the full syntax is judged by an independent NbE checker; every perturbed explicit program the reference judges ill-typed as source must be rejected with at least one diagnostic; a matrix of 6 360 calls `h ti tj (lambda)` of a higher-order polymorphic parameter under 1-4 type binders (5 shapes x 12 lambda variants with written or omitted binder annotations x every pair of type arguments, with and without spacer binders) is checked the same way; non-trivial = distinct accepted program judged, or distinct ill-typed program rejected",
         );
         p.assumptions = vec![
             "R-core (harness/src/core.rs) implements DESIGN.md A.5/A.6; an unsolved hole left in an elaborated term is an opaque constant of type `type`".into(),
@@ -134,6 +210,23 @@ impl Prop for C03P {
                     }
                 }
                 ctx.max("small_programs_max_nodes", maxn as u64);
+            }
+            "polymorphic-instantiation-matrix" => {
+                for i in idx * 64..((idx + 1) * 64).min(matrix_total()) {
+                    let src = matrix_program(i);
+                    check_text(ctx, &src, true, "matrix");
+                }
+            }
+            "perturbed-inferred-programs" => {
+                // ill-typed programs with omitted annotations: whatever gram lets through has its
+                // elaborated term judged by the reference (no verdict on the source: R-core does
+                // not infer)
+                let mut r = Rng::for_case(ctx.seed, 4, idx);
+                let p = if idx % 4 == 3 { crate::gen_prog::gen_trap_program(&mut r, Mode::Inferred) } else { Some(gen_program(&mut r, Mode::Inferred)) };
+                let Some(p) = p else { return };
+                let m = if idx % 4 == 3 { p.h.clone() } else { perturb(&p.h, &mut r).map_or(p.h.clone(), |x| x.0) };
+                let src = print(&m, &Style::varied(&mut r), idx).text;
+                check_text(ctx, &src, true, "perturbed-inferred");
             }
             "perturbed-explicit-programs" => {
                 let mut r = Rng::for_case(ctx.seed, 3, idx);
@@ -186,6 +279,13 @@ impl Prop for C03P {
                     Some((m, _)) => print(&m, &Style::varied(&mut r), idx).text,
                     None => String::new(),
                 }
+            }
+            "perturbed-inferred-programs" => {
+                let mut r = Rng::for_case(seed, 4, idx);
+                let p = if idx % 4 == 3 { crate::gen_prog::gen_trap_program(&mut r, Mode::Inferred) } else { Some(gen_program(&mut r, Mode::Inferred)) };
+                let Some(p) = p else { return String::new() };
+                let m = if idx % 4 == 3 { p.h.clone() } else { perturb(&p.h, &mut r).map_or(p.h.clone(), |x| x.0) };
+                print(&m, &Style::varied(&mut r), idx).text
             }
             _ => String::new(),
         }
